@@ -155,6 +155,8 @@ type ConnLog struct {
 	Finished    bool // the master finished serving (end action done)
 	HoldReached bool
 	WriteErr    string
+	AckTimeouts int
+	acks        chan struct{}
 }
 
 // Snapshot returns a copy safe to read.
@@ -163,7 +165,7 @@ func (c *ConnLog) Snapshot() ConnLog {
 	defer c.mu.Unlock()
 	return ConnLog{Index: c.Index, Cmds: append([]Cmd(nil), c.Cmds...), PacketsSent: c.PacketsSent, BadResume: c.BadResume,
 		PeerClosed: c.PeerClosed, QuitSeen: c.QuitSeen, FaultDone: append([]string(nil), c.FaultDone...), Finished: c.Finished,
-		HoldReached: c.HoldReached, WriteErr: c.WriteErr}
+		HoldReached: c.HoldReached, WriteErr: c.WriteErr, AckTimeouts: c.AckTimeouts}
 }
 
 // Dumps returns the dump requests received on the connection.
@@ -188,7 +190,6 @@ type Master struct {
 	script []*Script
 	defScr *Script
 	conns  []*ConnLog
-	acks   chan struct{}
 	done   chan struct{}
 	wg     sync.WaitGroup
 	hold   chan struct{}
@@ -202,7 +203,7 @@ func NewMaster(l *hist.Layout, tr *Trace) (*Master, error) {
 	if err != nil {
 		return nil, err
 	}
-	m := &Master{ln: ln, Tr: tr, layout: l, acks: make(chan struct{}, 1<<16), done: make(chan struct{}),
+	m := &Master{ln: ln, Tr: tr, layout: l, done: make(chan struct{}),
 		hold: make(chan struct{}, 64), defScr: &Script{End: EndEOF}, open: map[net.Conn]bool{}}
 	m.wg.Add(1)
 	go m.acceptLoop()
@@ -222,13 +223,27 @@ func (m *Master) SetScripts(s ...*Script) {
 // SetDefault sets the script used when the list is exhausted.
 func (m *Master) SetDefault(s *Script) { m.mu.Lock(); m.defScr = s; m.mu.Unlock() }
 
-// Ack tells a lock-step master that the handler has dealt with a delivery.
+// Ack tells a lock-step master that the handler has dealt with a delivery; it
+// goes to the most recent connection (attempts are sequential).
 func (m *Master) Ack() {
+	m.mu.Lock()
+	var cl *ConnLog
+	if n := len(m.conns); n > 0 {
+		cl = m.conns[n-1]
+	}
+	m.mu.Unlock()
+	if cl == nil {
+		return
+	}
 	select {
-	case m.acks <- struct{}{}:
+	case cl.acks <- struct{}{}:
 	default:
 	}
 }
+
+// AckWait is how long a lock-step master waits for the handler before it
+// goes on anyway (pacing is best effort; it never decides a verdict).
+var AckWait = 1500 * time.Millisecond
 
 // Release lets a master parked in FHold continue.
 func (m *Master) Release() {
@@ -270,7 +285,7 @@ func (m *Master) acceptLoop() {
 		}
 		m.mu.Lock()
 		idx := len(m.conns)
-		cl := &ConnLog{Index: idx}
+		cl := &ConnLog{Index: idx, acks: make(chan struct{}, 4096)}
 		m.conns = append(m.conns, cl)
 		scr := m.defScr
 		if idx < len(m.script) {
@@ -657,44 +672,25 @@ func (m *Master) dump(p *pconn, cl *ConnLog, scr *Script, d *DumpReq) {
 		cl.mu.Unlock()
 		if commitOf >= 0 && scr.LockStep {
 			select {
-			case <-m.acks:
+			case <-cl.acks:
 			case <-peerGone:
 				finish()
 				return false
 			case <-m.done:
 				return false
+			case <-time.After(AckWait):
+				cl.mu.Lock()
+				cl.AckTimeouts++
+				cl.mu.Unlock()
 			}
 		}
 		return true
 	}
 
-	prevCfg := f.Cfg // algorithm in force for the first fake rotate: the file's own
-	for ; fi < len(l.Files); fi++ {
-		f = l.Files[fi]
-		// fake rotate: timestamp 0, next_position 0, artificial
-		fr := prevCfg.EventNext(0, ev.Rotate, ev.FlagArtificial, ev.RotateBody(uint64(d.Pos), f.Name), 0)
-		if !send(fr, -1) {
+	for _, pk := range planFrom(l, fi, first, d.Pos) {
+		if !send(pk.Bytes, pk.CommitOf) {
 			return
 		}
-		// format description; next_position 0 when not starting at 4
-		var fde []byte
-		if d.Pos == 4 {
-			fde = f.Cfg.FormatDescriptionEvent(f.FDETS, f.FDEEnd, 0)
-		} else {
-			fde = f.Cfg.FormatDescriptionEvent(f.FDETS, 0, 0)
-		}
-		if !send(fde, -1) {
-			return
-		}
-		for i := first; i < len(f.Events); i++ {
-			e := f.Events[i]
-			if !send(e.Bytes, e.CommitOf) {
-				return
-			}
-		}
-		first = 0
-		d = &DumpReq{Pos: 4}
-		prevCfg = f.Cfg
 	}
 	// a fault addressed one past the last packet still fires
 	if flt, ok := scr.Faults[pktIdx]; ok && flt.Kind != FNone {
@@ -722,4 +718,74 @@ func (m *Master) dump(p *pconn, cl *ConnLog, scr *Script, d *DumpReq) {
 		finish()
 		idle()
 	}
+}
+
+// PlanPkt is one packet of a dump stream.
+type PlanPkt struct {
+	Bytes    []byte
+	CommitOf int    // delivery index this event commits, or -1
+	Kind     string // fake-rotate, fde, or the layout's event kind
+	File     int
+	Start    uint32
+	End      uint32
+}
+
+func planFrom(l *hist.Layout, fi, first int, pos uint32) []PlanPkt {
+	var out []PlanPkt
+	f := l.Files[fi]
+	prevCfg := f.Cfg // algorithm in force for the first fake rotate: the file's own
+	for ; fi < len(l.Files); fi++ {
+		f = l.Files[fi]
+		// fake rotate: timestamp 0, next_position 0, artificial
+		out = append(out, PlanPkt{Bytes: prevCfg.EventNext(0, ev.Rotate, ev.FlagArtificial, ev.RotateBody(uint64(pos), f.Name), 0), CommitOf: -1, Kind: "fake-rotate", File: fi})
+		// format description; next_position 0 when not starting at 4
+		if pos == 4 {
+			out = append(out, PlanPkt{Bytes: f.Cfg.FormatDescriptionEvent(f.FDETS, f.FDEEnd, 0), CommitOf: -1, Kind: "fde", File: fi, Start: 4, End: f.FDEEnd})
+		} else {
+			out = append(out, PlanPkt{Bytes: f.Cfg.FormatDescriptionEvent(f.FDETS, 0, 0), CommitOf: -1, Kind: "fde", File: fi})
+		}
+		for i := first; i < len(f.Events); i++ {
+			e := f.Events[i]
+			out = append(out, PlanPkt{Bytes: e.Bytes, CommitOf: e.CommitOf, Kind: e.Kind, File: fi, Start: e.Start, End: e.End})
+		}
+		first = 0
+		pos = 4
+		prevCfg = f.Cfg
+	}
+	return out
+}
+
+// Plan returns the packets a dump from pos would consist of, or nil when the
+// position is not one the master accepts.
+func Plan(l *hist.Layout, pos hist.Pos) []PlanPkt {
+	fi := -1
+	for i, f := range l.Files {
+		if f.Name == pos.File {
+			fi = i
+		}
+	}
+	if fi < 0 || pos.Off < 4 || pos.Off > 0xffffffff {
+		return nil
+	}
+	f := l.Files[fi]
+	first := 0
+	if pos.Off != 4 {
+		first = -1
+		for i, e := range f.Events {
+			if int64(e.Start) == pos.Off {
+				first = i
+				break
+			}
+		}
+		if first < 0 {
+			if n := len(f.Events); n > 0 && int64(f.Events[n-1].End) == pos.Off {
+				first = n
+			} else if len(f.Events) == 0 && pos.Off == int64(f.FDEEnd) {
+				first = 0
+			} else {
+				return nil
+			}
+		}
+	}
+	return planFrom(l, fi, first, uint32(pos.Off))
 }
